@@ -56,3 +56,11 @@ Fixpoint wsl (n : node) : bool :=
       && forallb wsl ks
   end.
 
+
+(* white-space elements carry no character data of their own (the tree-level reading of [in_domain]) *)
+Fixpoint wsnt (n : node) : bool :=
+  match n with
+  | Node k _ _ tx ks _ => (if ws_kind k then match tx with None => true | Some _ => false end else true) && forallb wsnt ks
+  end.
+Definition spans_wf (spans : list (list (nat * nat))) : bool :=
+  forallb (forallb (fun m : nat * nat => fst m <=? snd m)) spans.
